@@ -3,15 +3,23 @@
 
   `Model.Bech32.*` mirrors bitcoin/segwit_addr.py and bitcoin/bech32.py; `Spec.Bech32.*` is BIP173
   (validity predicate `Decodes` / `ValidSegwit`, reference encoding `encodeAddr`, checksum function).
-  Helper lemmas live in Proofs/Bech32{Code,Bits,Str,Addr,Detect,Bch,Case}.lean.
+  Helper lemmas live in Proofs/Bech32{Code,Code4,Bits,Str,Addr,Detect,Bch,Case}.lean and
+  Proofs/Bech32Code4Shards/ (the kernel-evaluated exhaustive check behind `detects_le4`).
   Strings are lists of code points.  `hamming a b` counts the positions at which two strings differ;
   `substitute s subs` applies character substitutions; corruption is measured on the lowercase form
   (BIP173: "the lowercase form is used when determining a character's value"), a pure change of letter
   case being the business of `mixed_case_rejected`.
 
-  `detects_le4` (3 and 4 substitutions) is in Props/C11Native.lean.
+  What is and is not proved about corruption: the BCH code guarantees detection of up to four
+  character SUBSTITUTIONS (`detects_le2`, `detects_le4`, all strings, all lengths ≤ 90).  It gives no such
+  guarantee for insertions, deletions, truncations or extensions, and none is claimed here: for those the
+  theorems only say that the outcome is whatever BIP173's predicate says (`decode_accepts_iff`), and the
+  property's "every truncation and extension" is covered by the behavioural correspondence (T2) alone —
+  the check enumerates every truncation/extension/deletion/insertion of sampled valid addresses and
+  compares the implementation with the model (all are rejected in every run so far).
 -/
 import BtcVerif.Proofs.Bech32Detect
+import BtcVerif.Proofs.Bech32Code4
 import BtcVerif.Proofs.Bech32Bch
 import BtcVerif.Proofs.Bech32Case
 
@@ -214,7 +222,7 @@ theorem cbech32_new_iff (h s : List Char) (v : Nat) (b : Bytes) :
       have := hp256 x hx
       simp [UInt8.toNat_ofNat', Nat.mod_eq_of_lt this]
     simp only [Model.Bech32.fromBytes, hv16, decide_true, Bool.not_true, Bool.false_eq_true, if_false,
-      Except.ok.injEq, Prod.mk.injEq]
+      bytesOfInts_ok p' hp256, Except.ok.injEq, Prod.mk.injEq]
     constructor
     · rintro ⟨rfl, rfl⟩
       rw [hrt]; exact hd'
@@ -242,8 +250,32 @@ theorem cbech32_new_rejects (h s : List Char) :
   | some vp =>
     obtain ⟨v', p'⟩ := vp
     have hd' := (decodeR_iff h s v' p').1 hr
-    obtain ⟨_, _, _, _, _, _, _, _, _, _, _, hv, _⟩ := hd'
-    simp [Model.Bech32.fromBytes, hv]
+    obtain ⟨_, _, _, _, _, _, _, _, _, _, _, hv, hreg, _⟩ := hd'
+    simp [Model.Bech32.fromBytes, hv, bytesOfInts_ok p' hreg.1]
+
+/-- `CBech32Data(s)` has exactly two kinds of outcome: an object, or `Bech32Error`.  In particular the
+    ValueError sites of `from_bytes` (`witver > 16`, `bytes(witprog)` with an element ≥ 256) and the
+    IndexError site of `decode` are dead on this path -/
+theorem cbech32_new_outcomes (h s : List Char) :
+    (∃ v b, Model.Bech32.cbech32New h s = .ok (v, b)) ∨
+      Model.Bech32.cbech32New h s = .error .bech32err := by
+  by_cases hv : ValidSegwit h s
+  · left
+    obtain ⟨v, p, hd⟩ := hv
+    have hp256 : ∀ x ∈ p, x < 256 := by
+      obtain ⟨_, _, _, _, _, _, _, _, _, _, _, _, hreg, _⟩ := hd
+      exact hreg.1
+    refine ⟨v, p.map UInt8.ofNat, (cbech32_new_iff h s v _).2 ?_⟩
+    have hrt : (p.map UInt8.ofNat).map UInt8.toNat = p := by
+      rw [List.map_map]
+      conv => rhs; rw [← List.map_id p]
+      apply List.map_congr_left
+      intro x hx
+      have := hp256 x hx
+      simp [UInt8.toNat_ofNat', Nat.mod_eq_of_lt this]
+    rw [hrt]; exact hd
+  · right
+    exact (cbech32_new_rejects h s).1 hv
 
 /-- `CBech32Data(str(CBech32Data.from_bytes(v, prog)))` gives back `(v, prog)` for every admissible pair
     under every valid prefix -/
@@ -288,6 +320,38 @@ theorem detects_substitutions_le2 (h s : List Char) (subs : List (Nat × Char))
     exact (hamming_eq_zero _ _ (by simp [lowerStr, hl]) h0).symm
   · left
     exact detects_le2 h s _ hv hl (by omega)
+
+/-- a valid address and any string of the same length whose lowercase form differs from it in exactly
+    three or four characters (anywhere): the latter is rejected.
+    Standard axioms only: the exhaustive part (no zero syndrome of weight 3 or 4 within 89 positions;
+    ≈ 3.7 M table look-ups) is evaluated by the KERNEL in 961 `decide +kernel` theorems
+    (Proofs/Bech32Code4Shards, ≈ 10 CPU-minutes in total, built in parallel). -/
+theorem detects_le4 (h s s' : List Char) (hv : Model.Bech32.decode h s ≠ none)
+    (hl : s'.length = s.length)
+    (hd : hamming (lowerStr s) (lowerStr s') = 3 ∨ hamming (lowerStr s) (lowerStr s') = 4) :
+    Model.Bech32.decode h s' = none := by
+  cases hd' : Model.Bech32.decode h s' with
+  | none => rfl
+  | some vp =>
+    have hs : ValidSegwit h s := (decode_accepts_iff h s).1 hv
+    have hs' : ValidSegwit h s' := (decode_accepts_iff h s').1 (by rw [hd']; simp)
+    obtain ⟨E, hE, hEl, hw, hrun⟩ := valid_pair_syndrome h s s' hs hs' hl
+    exact absurd hrun (syndrome_ne_zero_34 E hE (by omega) (by omega))
+
+/-- in terms of explicit substitutions: after at most four character substitutions a valid address
+    is rejected, unless the substitutions changed nothing but letter case -/
+theorem detects_substitutions_le4 (h s : List Char) (subs : List (Nat × Char))
+    (hv : Model.Bech32.decode h s ≠ none) (hn : subs.length ≤ 4) :
+    Model.Bech32.decode h (substitute s subs) = none ∨ lowerStr (substitute s subs) = lowerStr s := by
+  have hl := substitute_length s subs
+  have hle := hamming_substitute_le s subs
+  by_cases h0 : hamming (lowerStr s) (lowerStr (substitute s subs)) = 0
+  · right
+    exact (hamming_eq_zero _ _ (by simp [lowerStr, hl]) h0).symm
+  · left
+    by_cases h2 : hamming (lowerStr s) (lowerStr (substitute s subs)) ≤ 2
+    · exact detects_le2 h s _ hv hl (by omega)
+    · exact detects_le4 h s _ hv hl (by omega)
 
 /-! ### non-vacuity -/
 
